@@ -101,8 +101,35 @@ op = st.one_of(
 )
 
 
+LEAPFROG_CFG = {"integrator": "leapfrog", "set": [], "family": "leapfrog", "fixed_step": True}
+
+
+@st.composite
+def treebox(draw, nmin=80, nmax=300):
+    """tree-code simulation: leapfrog in a box of 1-2 root cells per axis, fast particles (many change their tree
+    cell every step), tree gravity and/or tree collision search.  The particles are drawn inside build_sim from
+    the seed, so the case stays small."""
+    grav = draw(st.sampled_from(["tree", "tree", "basic"]))
+    coll = draw(st.sampled_from(["none", "tree", "linetree"] if grav == "tree" else ["tree", "linetree"]))
+    return {"n": draw(st.integers(nmin, nmax)), "seed": draw(st.integers(1, 10 ** 6)),
+            "root": [draw(st.integers(1, 2)), draw(st.integers(1, 2)), draw(st.integers(1, 2))],
+            "size": 10.0, "gravity": grav, "collision": coll,
+            "resolve": draw(st.sampled_from(["hardsphere", "merge"])),
+            "boundary": draw(st.sampled_from(["periodic", "periodic", "open"])),
+            "vmax": draw(st.sampled_from([8.0, 3.0])), "dt": 0.02}
+
+
+@st.composite
+def tree_program(draw, nmin=80, nmax=300):
+    return {"system": {"G": 1.0, "particles": [], "P_min": 1.0, "P_max": 1.0}, "cfg": LEAPFROG_CFG,
+            "tree": draw(treebox(nmin, nmax)), "dt_frac": 0.02, "rand_seed": draw(st.integers(1, 2 ** 31 - 1)),
+            "megno": False, "ops": [["steps", draw(st.integers(1, 3))]] + draw(st.lists(op, min_size=0, max_size=6))}
+
+
 @st.composite
 def program(draw, with512=False):
+    if draw(st.integers(0, 5)) == 0:
+        return draw(tree_program())
     fams = FAMILIES + (["whfast512", "whfast512", "whfast512"] if with512 else [])
     fam = draw(st.sampled_from(fams))
     if fam == "whfast512":
@@ -153,8 +180,16 @@ def stress_case(draw):
     """K threads running the same integrator configuration on different data, each with 1000-2000 test particles
     and a few hundred short integrate() calls: a C call lasts long enough for the calls of different threads to
     overlap all the time"""
-    cfg, weight = draw(st.sampled_from(STRESS_CFGS[:4] * 2 + STRESS_CFGS[4:]))
     K = draw(st.integers(2, 4))
+    if draw(st.integers(0, 3)) == 0:
+        # tree code: the tree is rebuilt / updated every step in every thread
+        progs = []
+        for k in range(K):
+            pr = draw(tree_program(800, 1500))
+            pr["ops"] = [["steps", 1], ["burst", draw(st.integers(15, 30))]]
+            progs.append(pr)
+        return {"programs": progs, "schedule": [], "stress": True}
+    cfg, weight = draw(st.sampled_from(STRESS_CFGS[:4] * 2 + STRESS_CFGS[4:]))
     ncalls = max(6, draw(st.integers(150, 300)) // weight)
     progs = []
     for k in range(K):
@@ -189,8 +224,44 @@ server_case = st.fixed_dictionaries({
 # building and running one program
 
 
+def build_tree_sim(prog):
+    import random
+    import rebound
+    t = prog["tree"]
+    rng = random.Random(t["seed"])          # deterministic: the seed is part of the case
+    sim = rebound.Simulation()
+    sim.rand_seed = prog["rand_seed"]
+    sim.integrator = "leapfrog"
+    sim.G = 1.0
+    sim.softening = 0.02
+    sim.opening_angle2 = 1.5
+    sim.dt = t["dt"]
+    rx, ry, rz = t["root"]
+    sim.configure_box(t["size"], rx, ry, rz)
+    sim.boundary = t["boundary"]
+    sim.gravity = t["gravity"]
+    if t["collision"] != "none":
+        sim.collision = t["collision"]
+        sim.collision_resolve = t["resolve"]
+    hx, hy, hz = 0.5 * t["size"] * rx, 0.5 * t["size"] * ry, 0.5 * t["size"] * rz
+    v = t["vmax"]
+    for i in range(t["n"]):
+        sim.add(m=1e-4, r=0.05 if t["collision"] != "none" else 0.0,
+                x=rng.uniform(-0.99 * hx, 0.99 * hx), y=rng.uniform(-0.99 * hy, 0.99 * hy),
+                z=rng.uniform(-0.99 * hz, 0.99 * hz),
+                vx=rng.uniform(-v, v), vy=rng.uniform(-v, v), vz=rng.uniform(-v, v), hash=ctypes_u32(i + 1))
+    return sim
+
+
+def ctypes_u32(i):
+    import ctypes
+    return ctypes.c_uint32(i)
+
+
 def build_sim(prog):
     from .. import rb
+    if prog.get("tree"):
+        return build_tree_sim(prog)
     sy, cfg = prog["system"], prog["cfg"]
     spec = {"G": sy["G"], "particles": sy["particles"]}
     sim = rb.new_sim(spec)
@@ -519,6 +590,9 @@ def classes(case, ctx):
             ctx.cls("op:" + o[0])
         if prog["system"].get("swarm"):
             ctx.cls("swarm")
+        if prog.get("tree"):
+            ctx.cls("tree")
+            ctx.cls("tree:%s/%s/%s" % (prog["tree"]["gravity"], prog["tree"]["collision"], prog["tree"]["boundary"]))
         if prog.get("megno"):
             ctx.cls("megno")
     for f in fams:
@@ -976,7 +1050,7 @@ def subs(tier):
         Sub("interleave", run_interleave, strategy=case_strategy(False), quick=800, thorough=16000, shards_quick=8),
         Sub("threads", run_threads, strategy=case_strategy(False), quick=600, thorough=10000, shards_quick=4,
             shards_thorough=8),
-        Sub("threads_stress", run_threads, strategy=stress_case(), quick=24, thorough=240, shards_quick=4,
+        Sub("threads_stress", run_threads, strategy=stress_case(), quick=32, thorough=240, shards_quick=4,
             shards_thorough=8),
         Sub("server", run_server, strategy=server_case, quick=320, thorough=4000, shards_quick=8),
         Sub("server_fd", run_server_fd, strategy=server_fd_case, quick=64, thorough=1200, shards_quick=8),
